@@ -632,4 +632,9 @@ def main(prop, tier):
                 os.remove(f)
             except OSError:
                 pass
+    # ---- the concurrent camera: shape / sample type re-configured while it runs and a frame call may be pending -----------
+    # (the real streamer thread under the deterministic scheduler; SimCamStreamObs' C17 clauses: the bytes delivered are those
+    # of the shape reported with the frame, nothing is written past them, the image is filled to its end)
+    import chk_simcam
+    chk_simcam.reshape_family(chk, bdir, 1500 if thorough else 300, random.Random(sd * 31 + 17))
     return chk.finish()
